@@ -3,7 +3,7 @@
    protocol of the code as it is).
 
    Input:  [L; D; njobs; (owner panics runner first)*; nev; (kind a b)*]
-   Output: [1; jobs; completed entries; max alive workers <= L ?; all dispatchers idle ?]
+   Output: [1; jobs; completed entries; max alive workers <= L ?; all dispatchers idle ?; wakes]
            when the history is a run of the model, else [0; index of the first
            event that is not enabled; its kind].
 
@@ -15,7 +15,8 @@
    behalf just before.  Events:
      1 CALL d j | 2 RET_OK d j | 3 RET_REJ d j | 4 RET_REJ_WRONG d j
      5 RESERVE_OK d counter | 6 RESERVE_FAIL d counter | 7 WORKER_START t _
-     8 JOB_START t j | 9 JOB_END t j | 10 GUARD_DROP t counter            *)
+     8 JOB_START t j | 9 JOB_END t j | 10 GUARD_DROP t counter
+     11 WOKEN t j (the worker has sent the result and woken the submitter)  *)
 From Compio.Model Require Import Base Asyncify.
 
 Record jinfo := mk_ji { ji_owner : nat; ji_panics : bool; ji_runner : nat; ji_first : bool }.
@@ -158,6 +159,15 @@ Definition handle (tbl : list jinfo) (a : ast) (kind x y : nat) : option ast :=
       obind (do_step a2 (EGuardDrop w)) (check_counter y)))
     | None => None
     end
+  | 11 =>
+    match lookup (wmap a) x with
+    | Some w =>
+      match nth_error (work (ms a)) w with
+      | Some (WSent _ k) => if k =? y then do_step a (EWake w) else None
+      | _ => None
+      end
+    | None => None
+    end
   | _ => None
   end.
 
@@ -213,7 +223,7 @@ Definition run_c17 (l : list N) : list N :=
         match replay tbl (mk_ast (init (nn lim) (nn d)) []) 0 evs 0 with
         | inl (a, mx) =>
           [1%N; NN (length (jobs (ms a))); NN (length (completed (ms a)));
-           b2N (mx <=? nn lim); b2N (all_idle (ms a))]
+           b2N (mx <=? nn lim); b2N (all_idle (ms a)); NN (length (wakes (ms a)))]
         | inr (i, k) => [0%N; NN i; NN k]
         end
       | None => BAD_CASE
